@@ -610,18 +610,27 @@ func (c *Ctx) SessionLifecycle(prop string) {
 			ndel++
 			target := a.Ins
 			x, path := an.Cut(an.CutQuery{From: an.Entry(F), Target: func(i ssa.Instruction) bool { return i == target },
-				AcceptEdge: func(b *ssa.BasicBlock, i int, at *an.Atom) bool {
-					if at == nil || at.Op != "<" {
+				AcceptEdge: c.WithSummaries(func(at *an.Atom, sub Subst) bool {
+					// timeout < time.Since(start) (either orientation; the timeout may reach a helper as an argument)
+					if at == nil {
 						return false
 					}
-					// timeout < time.Since(start)
-					call, ok := at.RV.(*ssa.Call)
+					var tv, sv ssa.Value
+					switch at.Op {
+					case "<":
+						tv, sv = at.LV, at.RV
+					case ">":
+						tv, sv = at.RV, at.LV
+					default:
+						return false
+					}
+					call, ok := sv.(*ssa.Call)
 					if !ok || call.Call.StaticCallee() == nil || call.Call.StaticCallee().String() != "time.Since" {
 						return false
 					}
-					_, f, _ := an.FieldOf(at.LV)
+					_, f, _ := an.FieldOf(sub.Res(tv))
 					return strings.Contains(strings.ToLower(f), "timeout")
-				}})
+				})})
 			if x != nil {
 				c.R.Fail(rule4, Fn(F)+":expiry", c.Pos(a.Ins), "the lookup removes a session for a reason other than its age exceeding the configured timeout", "delete only below [time.Since(started) > timeout]", an.PathString(c.Pos, path))
 			} else {
